@@ -62,6 +62,8 @@ Definition ok_special (c : ctx_table) (acc : aexp) (n : name) : bool :=
 Definition ok_register (c : ctx_table) (r : name) : bool :=
   opt_str_eqb (memoize c r) (Some r) && (count r (ct_registers c) =? 1).
 
+Definition has_upper (n : name) : bool := existsb (fun b => (65 <=? b) && (b <=? 90)) n.
+
 Definition diagnose (c : ctx_table) : list (name * string * name) :=
   diag c "get_register_always / set_register: different location, index out of range or wrong width"%string
        (ok_tables c) (names_of (ct_get c) ++ names_of (ct_set c)) ++
@@ -84,7 +86,11 @@ Definition diagnose (c : ctx_table) : list (name * string * name) :=
   diag c "REGISTERS entry is duplicated or memoize_register maps it to another name"%string
        (ok_register c) (ct_registers c) ++
   diag c "general_purpose_registers() is not this type's REGISTERS"%string
-       (fun _ => strs_eqb (ct_gpr c) (ct_registers c)) [ct_variant c].
+       (fun _ => strs_eqb (ct_gpr c) (ct_registers c)) [ct_variant c] ++
+  diag c "default_memoize_register does not compare names exactly: a spelling set_register / get_register_always do not know (they match string literals) would be reported present"%string
+       (fun _ => ct_memo_cmp c =? 0) [ct_name c] ++
+  diag c "a register name or alias contains an upper-case ASCII letter"%string
+       (fun n => negb (has_upper n)) (accepted c).
 
 (* for reading a diagnosis: names back to text *)
 Definition show (n : name) : string :=
